@@ -59,6 +59,15 @@ func zzBatch(tag string) int {
 //   srcMode: 0: s1 in file, s2 in db; 1: both in file; 2: s1 in file and in db (clash), s2 in db
 func ZZ_C20_Load(nf, nd, srcMode int) {
 	zzReset()
+	// srcMode >= 10: names that contain separators, chosen so that distinct
+	// (source, integration) pairs agree once joined with '-' ("s1"+"x-a" and "s1-x"+"a")
+	s1, s2 := "s1", "s2"
+	zzIgNames, zzSrcRefNames = []string{"a", "b"}, []string{"s1", "s2", "missing"}
+	if srcMode >= 10 {
+		srcMode -= 10
+		s2 = "s1-x"
+		zzIgNames, zzSrcRefNames = []string{"a", "x-a"}, []string{"s1", "s1-x", "missing"}
+	}
 	zzLean = nf+nd > 2
 	var conf config.Root
 	var file, db []config.Integration
@@ -82,17 +91,17 @@ func ZZ_C20_Load(nf, nd, srcMode int) {
 	srcs := map[string]config.Source{}
 	switch srcMode {
 	case 0:
-		f1, d2 := zzCfgSource("s1", "f.s1"), zzCfgSource("s2", "d.s2")
+		f1, d2 := zzCfgSource(s1, "f.s1"), zzCfgSource(s2, "d.s2")
 		conf.Sources, config.ZZDBSources = []config.Source{f1}, []config.Source{d2}
-		srcs["s1"], srcs["s2"] = f1, d2
+		srcs[s1], srcs[s2] = f1, d2
 	case 1:
-		f1, f2 := zzCfgSource("s1", "f.s1"), zzCfgSource("s2", "f.s2")
+		f1, f2 := zzCfgSource(s1, "f.s1"), zzCfgSource(s2, "f.s2")
 		conf.Sources, config.ZZDBSources = []config.Source{f1, f2}, nil
-		srcs["s1"], srcs["s2"] = f1, f2
+		srcs[s1], srcs[s2] = f1, f2
 	default:
-		f1, d1, d2 := zzCfgSource("s1", "f.s1"), zzCfgSource("s1", "d.s1"), zzCfgSource("s2", "d.s2")
+		f1, d1, d2 := zzCfgSource(s1, "f.s1"), zzCfgSource(s1, "d.s1"), zzCfgSource(s2, "d.s2")
 		conf.Sources, config.ZZDBSources = []config.Source{f1}, []config.Source{d1, d2}
-		srcs["s1"], srcs["s2"] = f1, d2 // the file wins the clash
+		srcs[s1], srcs[s2] = f1, d2 // the file wins the clash
 	}
 	config.ZZDBErr = nil
 
